@@ -91,6 +91,38 @@ def units(tier):
         yield {"leg": "sched", "targets": tg}
     for k in range(6):
         yield {"leg": "cli", "k": k}
+    # variable-width bases (their 'resolution' is a coarsening factor): three different tables with the same chromosome sizes and
+    # bin counts zoomified one after the other in one process, in every order
+    for perm in range(6):
+        yield {"leg": "varseq", "perm": perm}
+
+
+def _varseq(R, unit, only):
+    import cooler
+    from vmc.checks.c08 import SEQVAR
+    order = list(itertools.permutations(range(3)))[unit["perm"]]
+    R.add("states")
+    R.add("traces")
+    for step, ti in enumerate(order):
+        bins = alpha.table_bins(SEQVAR[ti], "chr")
+        n = len(bins)
+        pix = fx.pixvals(alpha.structured(n, True)[1][1], n)
+        uri = fx.make(("c09var", ti), bins, pix)
+        inner = {"step": step, "table": ti}
+        R.order = (R.order[0], step)
+        R.ev(1, 1)
+        R.add("transitions")
+        R.cls("zoom:variable")
+        out = scratch.fresh(".mcool")
+        try:
+            try:
+                cooler.zoomify_cooler(uri, out, [2, 4], chunksize=5, columns=["count", "score"])
+            except Exception as e:
+                R.mismatch("zoomify-raises:" + type(e).__name__, inner, f"{e!s:.300}")
+                continue
+            _judge_file(R, inner, out, {1: (uri, [tuple(b) for b in bins], pix)}, [2, 4], ("count", "score"))
+        finally:
+            scratch.rm(out)
 
 
 def _level_matches(rd, got, bins0, pix0, factor, cols):
@@ -225,7 +257,13 @@ def _multi(R, unit, only):
             uri = fx.make(("c09cons", b), base_bins(b), pix)
         else:
             pix = base_pix(b, ["full", "checker", "off1"][b - 1])
-            uri = base_uri(b, ["full", "checker", "off1"][b - 1], weights=(b == 2), group="/" if b != 2 else "/nested/grp")
+            if b == max(bases) and len(bases) > 1:
+                # the coarsest independent base stores its counts as float64 with fractional values (dtype must not be
+                # inherited from a level derived earlier from another base)
+                pix = {k: {"count": v["count"] + 0.5, "score": v["score"]} for k, v in pix.items()}
+                uri = fx.make(("c09float", b), base_bins(b), pix, count_dtype=np.float64)
+            else:
+                uri = base_uri(b, ["full", "checker", "off1"][b - 1], weights=(b == 2), group="/" if b != 2 else "/nested/grp")
         spec[b] = (uri, base_bins(b), pix)
     derivable = all(any(t % b == 0 for b in bases) for t in targets)
     out = scratch.fresh(".mcool")
@@ -417,5 +455,7 @@ def run(unit, R, tier, only=None):
         _sched(R, unit, tier, only)
     elif leg == "cli":
         _cli(R, unit["k"], only)
+    elif leg == "varseq":
+        _varseq(R, unit, only)
     else:
         raise ValueError(leg)
